@@ -1,0 +1,27 @@
+//! Verification hooks.
+//!
+//! Only compiled with the cargo feature `verif-hooks`. Allows an external verification harness to
+//! observe the local backend at the point between writing the temporary file and publishing it.
+//! Nothing in here changes the behaviour of the library unless a callback is installed.
+
+use std::{
+    path::Path,
+    sync::{Arc, RwLock},
+};
+
+type PrePublishCallback = Arc<dyn Fn(&Path, &Path) + Send + Sync>;
+
+static PRE_PUBLISH: RwLock<Option<PrePublishCallback>> = RwLock::new(None);
+
+/// Install (or remove) a callback called by `LocalBackend::write_bytes` with (temporary path, final path)
+/// after the temporary file has been completely written and synced and before it is renamed.
+pub fn set_pre_publish_hook(callback: Option<Arc<dyn Fn(&Path, &Path) + Send + Sync>>) {
+    *PRE_PUBLISH.write().unwrap() = callback;
+}
+
+pub(crate) fn pre_publish(tmp: &Path, target: &Path) {
+    let callback = PRE_PUBLISH.read().unwrap().clone();
+    if let Some(callback) = callback {
+        callback(tmp, target);
+    }
+}
